@@ -1,0 +1,36 @@
+//go:build verif
+
+/*
+ * Licensed to the Apache Software Foundation (ASF) under one or more
+ * contributor license agreements.  See the NOTICE file distributed with
+ * this work for additional information regarding copyright ownership.
+ * The ASF licenses this file to You under the Apache License, Version 2.0
+ * (the "License"); you may not use this file except in compliance with
+ * the License.  You may obtain a copy of the License at
+ *
+ *     http://www.apache.org/licenses/LICENSE-2.0
+ *
+ * Unless required by applicable law or agreed to in writing, software
+ * distributed under the License is distributed on an "AS IS" BASIS,
+ * WITHOUT WARRANTIES OR CONDITIONS OF ANY KIND, either express or implied.
+ * See the License for the specific language governing permissions and
+ * limitations under the License.
+ */
+
+package getty
+
+import "sync"
+
+// VerifServerSessions returns how many sessions the session manager records
+// under a server address (the per-address map of serverSessions) and how many
+// sessions are in the registry used for selection. Verification builds only.
+func VerifServerSessions(addr string) (perAddress int, all int) {
+	if sessionManager == nil {
+		return 0, 0
+	}
+	if m, ok := sessionManager.serverSessions.Load(addr); ok {
+		m.(*sync.Map).Range(func(_, _ interface{}) bool { perAddress++; return true })
+	}
+	sessionManager.allSessions.Range(func(_, _ interface{}) bool { all++; return true })
+	return
+}
